@@ -21,6 +21,8 @@ pub struct C05;
 
 const DELIMS: &[&str] = &[
     ",", ":", ";", "a", " ", "\\n", "\\t", "\\\\", "\\x2c", "\\054", "'", "\"", "\\x41",
+    // every named escape, and the same bytes spelled numerically
+    "\\a", "\\b", "\\f", "\\r", "\\v", "\\x0b", "\\014", "\\x07",
 ];
 
 fn sep_bytes(cfg: &xargs::Config) -> Vec<u8> {
